@@ -1,12 +1,70 @@
-(* C11 — Fork-choice graph queries agree with the tree that was inserted. Statements only (proofs in Forkchoice/*Proofs.v). *)
+(* C11 — Fork-choice graph queries agree with the tree that was inserted.
+   Statements only; proofs in Forkchoice/{TreeProofs,Refuted}.v. Model: Forkchoice/{ProtoArray,VoteStore,Wrapper}.v with the
+   repairs fixes/C09-*.diff, C10-*.diff, C11-*.diff applied ([fixed]); Spec: Forkchoice/{TreeSpec,GhostSpec,Step}.v. *)
 From Coq Require Import NArith List.
 From V Require Import Base.U64 Base.Outcome Forkchoice.ProtoArray Forkchoice.Wrapper Forkchoice.TreeSpec Forkchoice.GhostSpec
-     Forkchoice.Step Forkchoice.Refuted.
+     Forkchoice.Step Forkchoice.TreeProofs Forkchoice.Refuted.
 Import ListNotations.
 Local Open Scope N_scope.
 
+(* The full property (DESIGN A.1): over every history in the domain, every insertion and navigation query of the Impl returns
+   what the direct walk of the Spec's tree returns, nothing panics or blocks. [Step.refines] runs Impl and Spec side by side. *)
+Definition C11_full : Prop := forall i ops, refines sel_c11 true i ops = true.
+(* False as it stands, also of the repaired code: known finding prune_keeps_late_fork (witness below). What is claimed: *)
+Definition C11_queries_refine : Prop := forall i ops, refines sel_c11 false i ops = true.
+   (* = C11_full with the hypothesis "no update moves finalization to a node while a non-descendant inserted after it exists"
+      (Step.late_fork_at cuts the run there). NOT proved in full: proved below for all histories of insertions (the tree, the
+      lowest-slot table, ProcessBlock's answers); the walks (ClosestToSlot, InSubtree, CanonicalChain, CanonAtSlot, Search) and
+      histories with votes/updates/prunes are covered by the correspondence runs only. *)
+
+(* For EVERY history of ProcessSlot/ProcessBlock calls in the domain, on any array related to a tree (in particular a fresh one):
+   the node table read as a list is exactly the Spec's tree (same nodes, parents, epochs), `indices` is its position table,
+   `blockSlots` its lowest-slot table, every ProcessBlock answers what the tree rule says, and nothing panics or runs out of
+   fuel. Resource hypothesis: fewer than 2^64 nodes are ever created. *)
+Theorem C11_insert_refines_partial : forall ops pa,
+  Rel pa -> iops_dom ops (abs pa) -> created (fst (impl_iops ops pa)) < two64 ->
+  snd (impl_iops ops pa) = map Ok (snd (spec_iops ops (abs pa))) /\
+  Rel (fst (impl_iops ops pa)) /\ abs (fst (impl_iops ops pa)) = fst (spec_iops ops (abs pa)) /\
+  pa_off (fst (impl_iops ops pa)) = pa_off pa.
+Proof. exact insert_refines. Qed.
+Print Assumptions C11_insert_refines_partial.
+
+Theorem C11_fresh_array_related : forall parent r s je fe sink_nil, Rel (new_array parent r s je fe sink_nil).
+Proof. exact Rel_new_array. Qed.
+Print Assumptions C11_fresh_array_related.
+
+(* on related states: the slot of a block root is the lowest known slot of the Spec's tree, unknown roots are unknown;
+   a (root, slot) pair is in `indices` iff it is a node of the tree *)
+Theorem C11_get_slot_refines : forall pa r, Rel pa -> GetSlot pa r = spec_get_slot (abs pa) r.
+Proof. exact GetSlot_refines. Qed.
+Print Assumptions C11_get_slot_refines.
+Theorem C11_membership_refines : forall pa r, Rel pa -> (known (abs pa) r = true <-> exists k, idx_get (pa_idx pa) r = Some k).
+Proof. intros pa r H. exact (Rel_known pa r H). Qed.
+Print Assumptions C11_membership_refines.
+
+(* Defects of the pinned snapshot (model instance [pinned]) against the Spec and the repaired code; each history is also run
+   on the Go code by the harness (directed histories) *)
 Theorem C11_insubtree_sibling_leaves_snapshot_refuted :
   last_out (run_from pinned (init0 false) h_siblings) = Ok (RPair false true) /\
   last_exp (spec_from (init0 false) h_siblings) = EVal (RPair false false) /\
   last_out (run_from fixed (init0 false) h_siblings) = Ok (RPair false false).
 Proof. exact insubtree_sibling_leaves_refuted. Qed.
+Theorem C11_search_same_slot_snapshot_refuted :
+  last_out (run_from pinned (init0 false) h_same_slot) = Ok (RSearch [] []) /\
+  last_exp (spec_from (init0 false) h_same_slot) = ESearch [(2, 1)] [] /\
+  last_out (run_from fixed (init0 false) h_same_slot) = Ok (RSearch [(2, 1)] []).
+Proof. exact search_same_slot_refuted. Qed.
+Theorem C11_getnode_bound_snapshot_refuted :
+  getNode pinned (new_array 0 1 0 0 0 false) 1 = Panic IndexOOR /\ getNode fixed (new_array 0 1 0 0 0 false) 1 = Err.
+Proof. exact getnode_bound_refuted. Qed.
+
+(* KNOWN FINDING (repaired code too): C11_full fails on histories of the shape prune_keeps_late_fork, and only the hypothesis
+   of C11_queries_refine removes the witness *)
+Theorem C11_full_refuted_by_late_fork :
+  refines sel_c11 true (init0 true) (h_prune ++ [OGetSlot 7]) = false /\
+  refines sel_c11 false (init0 true) (h_prune ++ [OGetSlot 7]) = true.
+Proof. destruct late_fork_refutes_full as [A [_ [B _]]]. exact (conj A B). Qed.
+
+(* non-vacuity: the full statement holds on a history with forks, votes, gap slots and every kind of query *)
+Example C11_nonvacuous : refines sel_c11 true (init0 false) h_rich = true.
+Proof. exact (proj1 refines_examples). Qed.
